@@ -21,6 +21,7 @@ type Case struct {
 	Keys     []string  `json:"keys"`
 	Upper    bool      `json:"upper"`               // first key column is grouped as upper(k1)
 	NearPair bool      `json:"near_pair,omitempty"` // two float keys differing only beyond float32 precision were planted
+	NearInt  bool      `json:"near_int,omitempty"`  // ... or two integer keys beyond 2^53 that are equal as float64
 	Aliased  []bool    `json:"aliased,omitempty"` // per key column: selected as "k AS o_k" (the tuple is reported under the selected name)
 	KeyFn    string    `json:"key_fn,omitempty"`    // other scalar function around the first key column: lower, length (strings), abs (ints), floor (floats); several raw values share one function value
 	Rows     []gen.Row `json:"rows"`                // id + key columns
@@ -122,6 +123,22 @@ func genCase(t *rapid.T) Case {
 				}
 			}
 			c.NearPair = true
+			break
+		}
+	}
+	// two integer keys beyond 2^53 that a float64 cannot tell apart (neighbouring 64-bit ids), in the same batch
+	for j := 0; j < nk && !c.NearPair; j++ {
+		if kinds[j] == 1 && npool >= 2 && !(j == 0 && c.KeyFn != "") && rapid.IntRange(0, 2).Draw(t, "nearint") == 0 {
+			pr := rapid.SampledFrom([][2]int64{{9007199254740992, 9007199254740993}, {9223372036854775807, 9223372036854775806}, {1 << 62, 1<<62 + 1},
+				{1790411870203205502, 1790411870203205503}, {-9007199254740993, -9007199254740992}, {-9223372036854775808, -9223372036854775807}, {1 << 60, 1<<60 + 100}}).Draw(t, "nearintpair")
+			pool[0][j], pool[1][j] = gen.Int(pr[0]), gen.Int(pr[1])
+			for x := 0; x < nk; x++ {
+				if x != j {
+					pool[1][x] = pool[0][x]
+				}
+			}
+			c.NearPair = true
+			c.NearInt = true
 			break
 		}
 	}
@@ -423,7 +440,9 @@ func runCase(c Case) (res pbt.Result) {
 	if c.KeyFn != "" {
 		res.Class("function-key:" + c.KeyFn)
 	}
-	if c.NearPair {
+	if c.NearInt {
+		res.Class("near-int-pair")
+	} else if c.NearPair {
 		res.Class("near-float-pair")
 	}
 	res.NonTrivial = (len(c.Keys) >= 2 && sepVal) || nullGroup || colliding
